@@ -1,0 +1,50 @@
+//go:build verif
+
+package auth
+
+import "time"
+
+// Verification hooks (build tag "verif" only) for the correspondence harness in /verif.
+
+// VerifShiftSessions ages every session by d (stands in for elapsed time).
+func VerifShiftSessions(d time.Duration) {
+	for _, k := range verifKeys() {
+		if s, ok := sessionStore.Get(k); ok {
+			s.ExpiresAt = s.ExpiresAt.Add(-d)
+			s.CreatedAt = s.CreatedAt.Add(-d)
+		}
+	}
+}
+
+// VerifSessionCount reports the number of sessions in the store.
+func VerifSessionCount() int { return len(verifKeys()) }
+
+// VerifResetSessions empties the session store.
+func VerifResetSessions() {
+	for _, k := range verifKeys() {
+		sessionStore.Delete(k)
+	}
+}
+
+// VerifRunGC performs one pass of the session garbage collector's loop body.
+func VerifRunGC() {
+	now := time.Now()
+	for _, k := range verifKeys() {
+		if s, ok := sessionStore.Get(k); ok && s.ExpiresAt.Before(now) {
+			sessionStore.Delete(s.ID)
+		}
+	}
+}
+
+// VerifLifetimes returns the session constants.
+func VerifLifetimes() (lifetime, extendThreshold time.Duration) {
+	return defaultLifetime, extendThreshold
+}
+
+func verifKeys() []string {
+	var ks []string
+	for k := range sessionStore.Keys() {
+		ks = append(ks, k)
+	}
+	return ks
+}
